@@ -37,9 +37,11 @@ type lblStructure struct {
 }
 
 var (
-	lblNames  = []string{"default", "n2", "n3"}
-	lblKeys   = []string{"a", "b", "c", "d", "e", "f"}
-	lblLabels = []string{"l1", "l2", "l3", "l4"}
+	lblNames = []string{"default", "n2", "n3"}
+	// labels that are prefixes of each other and keys that compensate: "l"+"1a" == "l1"+"a",
+	// "l1"+"2a" == "l12"+"a", "l"+"2b" == "l2"+"b" (a (label, key) pair is not its concatenation)
+	lblKeys   = []string{"a", "b", "1a", "2a", "2b", "f"}
+	lblLabels = []string{"l1", "l2", "l", "l12"}
 )
 
 type faultDeleter struct {
